@@ -76,6 +76,8 @@ type lifeW struct {
 	ncycles               int
 	reconn                int // 0 main task, 1 fg DISCONNECTED handler, 2 bg DISCONNECTED handler
 	sampleConnected       bool
+	tlsFail               bool // the next dial belongs to a Connect whose TLS handshake must fail
+	tlsLinks              int
 	chatty                bool // handlers call read-only API methods (Connected, Me, String, ...)
 
 	cycles        []*lifeCycle
@@ -173,7 +175,7 @@ func lifeRun(e *Env) {
 		if e.Prop == "C06" {
 			cy.dupConnect = g.Pct(35)
 			for k := g.W(5, 3, 1); k > 0; k-- {
-				cy.failFirst = append(cy.failFirst, g.Intn(3))
+				cy.failFirst = append(cy.failFirst, g.Intn(4))
 			}
 		}
 		w.plans = append(w.plans, cy)
@@ -201,11 +203,18 @@ func lifeRun(e *Env) {
 		}
 	}
 	e.OnDial = func(l *simnet.Link) {
+		if w.tlsFail {
+			// a Connect attempt with SSL on and no TLS server behind the socket:
+			// the handshake fails; this link is not a connection
+			w.tlsLinks++
+			l.CloseByServer()
+			return
+		}
 		var cy *lifeCycle
-		if l.ID <= len(w.plans) {
-			cy = w.plans[l.ID-1]
+		if l.ID-w.tlsLinks <= len(w.plans) && l.ID-w.tlsLinks >= 1 {
+			cy = w.plans[l.ID-w.tlsLinks-1]
 		} else {
-			cy = &lifeCycle{no: l.ID, cause: causeEOF, cause2: -1, closers: 1}
+			cy = &lifeCycle{no: l.ID - w.tlsLinks, cause: causeEOF, cause2: -1, closers: 1}
 		}
 		cy.link = l
 		cy.closesReturnedAtDial = w.closeReturned
@@ -448,9 +457,16 @@ func (w *lifeW) failingConnect(kind int) {
 		err = w.c.ConnectContext(ctx)
 		e.DialWait = nil
 		cancel()
+	case 3:
+		w.c.Config().SSL = true
+		w.tlsFail = true
+		err = w.c.Connect()
+		w.tlsFail = false
+		w.c.Config().SSL = false
+		e.S.Count("fault.tls-handshake-fails")
 	}
 	if err == nil {
-		e.Violation("connect-refused", "a Connect attempt that cannot succeed (%s) returned nil", []string{"no server configured", "dial error", "dial cancelled/timed out"}[kind])
+		e.Violation("connect-refused", "a Connect attempt that cannot succeed (%s) returned nil", []string{"no server configured", "dial error", "dial cancelled/timed out", "TLS handshake fails"}[kind])
 	}
 	simrt.Settle(time.Second)
 	if w.regEnter != reg || w.discCount != disc {
